@@ -161,10 +161,15 @@ Definition gevent_eqb (a b : gevent) : bool :=
 
 Definition kb (b : bool) : N := if b then 1%N else 0%N.
 Definition kst (l : list st) : N := match l with [] => 9%N | v :: _ => st_code v end.
+(* dedup key of a subscriber: the ghost fields and [dropped] influence no step; once the subscription is
+   dead (un-registered, wrapped channel closed) only what the consumer can still see does *)
 Definition ksub (x : sub) : list N :=
+  if wclosed x && unsub x
+  then [7; kst (wch x); kb (gotclosed x); N.of_nat (length (got x))]%N
+  else
   [match sg x with SReg => 0 | SLive => 1 end; kst (bch x); kb (bclosed x);
    match hand x with None => 9 | Some v => st_code v end; kst (wch x); kb (wclosed x);
-   kb (cancelled x); kb (unsub x); kb (dropped x); kb (gotclosed x); N.of_nat (length (got x))]%N.
+   kb (cancelled x); kb (unsub x); kb (gotclosed x); N.of_nat (length (got x))]%N.
 Definition gkey (g : gstate) : list N :=
   [st_code (cur (gm g)); N.of_nat (length (hist (gm g)));
    match gcall g with None => 0 | Some false => 1 | Some true => 2 end; N.of_nat (length (pend (gm g)))]%N
